@@ -1,16 +1,50 @@
 # C08 — all Message implementations agree on one wire format (C++ primitive layout part; DESIGN 5.C08).
+import os
 from props import codec
+from mv.runner import Job, REPO, VERIF
+from mv.cinject import inject
+
+UM_C = 'lang/c/micromessage/MicroMessage.c'
+# the C micro codec's primitive writers/readers against the SAME documented layout as the C++ encoders
+UM_PRE = r'''
+#include <string.h>
+#include "lang/c/micromessage/MicroMessage.h"
+#define MV_B(p, k) ((unsigned long)((const unsigned char *)(p))[k])
+#define MV_LE2(p) (MV_B(p, 0) | (MV_B(p, 1) << 8))
+#define MV_LE4(p) (MV_LE2(p) | (MV_B(p, 2) << 16) | (MV_B(p, 3) << 24))
+#define MV_LE8(p) (MV_LE4(p) | (MV_B(p, 4) << 32) | (MV_B(p, 5) << 40) | (MV_B(p, 6) << 48) | (MV_B(p, 7) << 56))
+#define MV_BITS(U, x) (*(const U *)&(x))
+'''
+UM_PRIMS = [('Int16', 'uint16', 2, 'unsigned short'), ('Int32', 'uint32', 4, 'unsigned int'), ('Int64', 'uint64', 8, 'unsigned long'),
+            ('Float', 'float', 4, 'unsigned int'), ('Double', 'double', 8, 'unsigned long')]
+END = '__CPROVER_assert(0, "MV_CANARY: end of harness reachable");'
+
+
+def micro_prim_jobs():
+    J = []
+    src = inject(os.path.join(REPO, UM_C), [], [])
+    for nm, ct, size, ut in UM_PRIMS:
+        w, r = 'UMWrite' + nm, 'UMRead' + nm
+        cw = ('static inline void %s(void * ptr, %s val)\n__CPROVER_requires(__CPROVER_is_fresh(ptr, %d))\n__CPROVER_assigns(__CPROVER_object_upto(ptr, %d))\n'
+              '__CPROVER_ensures(MV_LE%d(ptr) == (unsigned long)MV_BITS(%s, val))\n;\n' % (w, ct, size, size, size, ut))
+        cr = ('static inline %s %s(const void * ptr)\n__CPROVER_requires(__CPROVER_is_fresh(ptr, %d))\n__CPROVER_assigns()\n'
+              '__CPROVER_ensures((unsigned long)MV_BITS(%s, __CPROVER_return_value) == MV_LE%d(ptr))\n;\n' % (ct, r, size, ut, size))
+        J.append(Job('um_' + w, UM_PRE + cw + src + '\nvoid h_main(void) { void *p; %s v; %s(p, v); %s }\n' % (ct, w, END), 'h_main', enforce=[w], loops=False,
+                     klass='proved', functions=[(UM_C, w)], timeout=300, split=0))
+        J.append(Job('um_' + r, UM_PRE + cr + src + '\nvoid h_main(void) { void *p; %s(p); %s }\n' % (r, END), 'h_main', enforce=[r], loops=False,
+                     klass='proved', functions=[(UM_C, r)], timeout=300, split=0))
+    return J
 
 
 def jobs(tier):
-    return codec.codec_jobs(tier, want=('layout', 'writer'))
+    return codec.codec_jobs(tier, want=('layout', 'writer')) + micro_prim_jobs()
 
 
 def meta(tier):
     L = codec.lower()
     m = codec.meta_common(L)
     m.update(level='proof',
-             not_lowered=['Message::Flatten framing (Hashtable iteration)', 'lang/python3 (no verifier for Python here)', 'MiniMessage/MicroMessage writers (see DESIGN change log)'],
+             not_lowered=['Message::Flatten framing (Hashtable iteration)', 'lang/python3 (no verifier for Python here)', 'MiniMessage codec and the MicroMessage field-level writers UMAdd* (only its primitive readers/writers are covered)'],
              explanation='Each LittleEndianConverter::Export/Import overload and each DataFlattener Write* method is enforced against the documented byte layout '
                          '(exactly sizeof(T) bytes, byte k = bits 8k..8k+7) for all 2^(8*sizeof T) values; the writer contracts add cursor and frame conditions.')
     return m
